@@ -355,8 +355,10 @@ def gen_history(rng, cfg, length, weights=None, equal_sizes=False, allocs=(1,), 
                 specs[d].elems = list(s.elems)
                 specs[d].alloc = s.alloc if op == "move" else (s.alloc + 1 if s.alloc >= 100 else s.alloc)
                 if op == "move":
+                    # a moved-from vector is an empty vector without capacity (same fixed sizes, same allocator) and goes on
+                    # being used like any other: as source and target of every operation, reserved, filled
                     s.elems = []
-                    s.moved = True
+                    s.cap, s.budget = 0, 0
             elif op in ("copyassign", "moveassign", "swap"):
                 others = [d for d in specs]
                 d = rng.choice(others)
@@ -381,9 +383,12 @@ def gen_history(rng, cfg, length, weights=None, equal_sizes=False, allocs=(1,), 
                     if d != k and pocma:
                         t.alloc = s.alloc
                     if d != k:
+                        steals = ae or pocma or s.alloc == t.alloc
                         t.cap, t.budget, t.fixed, t.elems, t.moved = s.cap, s.budget, list(s.fixed), list(s.elems), False
-                        s.elems = []
-                        s.moved = True  # conservatively: do not keep using the source
+                        if steals:
+                            s.elems = []
+                            s.cap, s.budget = 0, 0   # moved-from: empty, no capacity; stays in use
+                        # element-wise branch: the source keeps its (moved-from) elements and its capacity
             elif op == "destroy":
                 if len(specs) > 1:
                     lines.append("destroy v%d" % k)
@@ -661,11 +666,16 @@ def gen_fault_matrix(rng, cfg, faults=(0, 1)):
             lines.append("emplace v0 %s" % gen_elem(rng, cfg, fixed, 3, 10 ** 9, same)[0])
         lines.append("new v1 1 %d %s 2" % (pay0, fixed_text(fixed_b)))
         lines.append("emplace v1 %s" % gen_elem(rng, cfg, fixed_b, 3, 10 ** 9, same)[0])
+        # v6: a moved-from vector (owns no block), allocator 2: target of assignments that have to allocate everything
+        lines.append("new v6 1 %d %s 2" % (pay0, fixed_text(fixed_b)))
+        lines.append("move v6 v7")
+        lines.append("destroy v7")
         return lines
 
     seqs = []
     ops = ["reserve v0 9 %d" % (9 * pay0), "reserve v1 5 %d" % (5 * pay0), "copy v0 v2", "copy v1 v2", "copyassign v0 v1", "copyassign v1 v0",
-           "moveassign v0 v1", "moveassign v1 v0", "new v3 2 %d %s 1" % (2 * pay0, fixed_text(fixed))]
+           "moveassign v0 v1", "moveassign v1 v0", "new v3 2 %d %s 1" % (2 * pay0, fixed_text(fixed)),
+           "copyassign v0 v6", "moveassign v0 v6", "reserve v6 3 %d" % (3 * pay0)]
     if faults is None:
         # no faults: the assignment matrix (every pair direction x operation), operands reused afterwards
         for op in ops[2:8] + ["swap v0 v1", "move v0 v2", "move v1 v2", "copyassign v0 v0", "moveassign v1 v1", "swap v1 v1"]:
@@ -693,10 +703,16 @@ def gen_fault_matrix(rng, cfg, faults=(0, 1)):
         for k in faults:
             lines = setup()
             # afterwards every operand must still be usable: dumped, cleared, assigned to (from a fresh vector), destroyed
-            lines += ["failat %d" % k, op, "failoff", "dump v0", "dump v1", "dump v2",
-                      "new v4 2 %d %s 1" % (2 * pay0, fixed_text(fixed_b)), "emplace v4 %s" % gen_elem(rng, cfg, fixed_b, 3, 10 ** 9, same)[0],
+            lines += ["failat %d" % k, op, "failoff", "dump v0", "dump v1", "dump v2"]
+            if cfg.category() in ("fixed", "plain"):
+                # without VaryingSize the reported capacity alone says how many elements fit: fill both operands up to it
+                lines += ["fillcap v0", "fillcap v1"]
+            # then every operand is assigned to once more, by copy or by move (element-wise between the unequal allocators)
+            lines += ["dump v6", "new v4 2 %d %s 1" % (2 * pay0, fixed_text(fixed_b)), "emplace v4 %s" % gen_elem(rng, cfg, fixed_b, 3, 10 ** 9, same)[0],
+                      "new v5 2 %d %s 1" % (2 * pay0, fixed_text(fixed_b)), "emplace v5 %s" % gen_elem(rng, cfg, fixed_b, 3, 10 ** 9, same)[0],
                       "clear v1", "dump v1", "copyassign v4 v1", "dump v1", "copyassign v4 v0", "dump v0",
-                      "destroy v0", "destroy v1", "end"]
+                      rng.choice(["copyassign v4 v6", "moveassign v5 v6"]), "dump v6", "dump v5",
+                      "destroy v0", "destroy v1", "destroy v6", "end"]
             seqs.append(lines)
     return seqs
 
